@@ -15,6 +15,7 @@ EXPLANATION = (
     "index panics, lock poisoning and OS failures are not decided.")
 ASSUMPTIONS = ["thread-pool creation and RwLock poisoning are environmental", "HashMap entry API semantics"]
 TRUSTED = ["rustc nightly MIR construction and constant evaluation", "shred-facts driver", "shredlint analyses"]
+TECHNIQUE = 'static: decision tables of DispatcherBuilder::add (two panics exactly guarded, names quoted, before placement), capacity and arithmetic constants folded from MIR/type facts, lock-step inventory, panic-construct scan of total methods'
 RULE_TEXT = "one obligation per path class of add, per guard constant, per lock-step mutation site and per total method"
 
 
